@@ -464,7 +464,19 @@ impl<T: Object> DeepClone for Lazy<T> {
 }
 impl<T: Object + DataSize> Lazy<T> {
     pub fn load(&self, resolve: &impl Resolve) -> Result<MaybeRef<T>> {
+        #[cfg(pdf_rs_pdf_verif)]
+        use crate::file::verif_hook::{yield_point, AtEnd, Point};
+        #[cfg(pdf_rs_pdf_verif)]
+        let cell = PlainRef { id: &self.cache as *const _ as usize as u64, gen: 0 };
+        #[cfg(pdf_rs_pdf_verif)]
+        yield_point(Point::LazyEnter, cell);
+        #[cfg(pdf_rs_pdf_verif)]
+        let _exit = AtEnd(Point::LazyExit, cell);
         self.cache.get_or_try_init(|| {
+            #[cfg(pdf_rs_pdf_verif)]
+            yield_point(Point::LazyInit, cell);
+            #[cfg(pdf_rs_pdf_verif)]
+            let _store = AtEnd(Point::LazyStore, cell);
             match self.primitive {
                 Primitive::Reference(r) => match resolve.get(Ref::new(r)) {
                     Ok(rc) => Ok(MaybeRef::Indirect(rc)),
